@@ -79,18 +79,17 @@ def extreme_cases(c):
 
 
 def run(c):
-    quick = [("no overflow, lo-1 <= f <= hi, |f-exact| <= |dy|/10^6+2 and exactness at the dots, one piece over the whole range 0..maxVal",
+    quick = [("no overflow, lo-1 <= f <= hi, |f-exact| <= |dy|/10^6+2, exactness at the dots, split form of c <= maxVal; one piece over the whole range 0..maxVal",
               "Init", "AllClauses", True)]
     full = [("no intermediate of the uint64 computation exceeds 2^64-1 (whole range 0..maxVal)", "Init", "NoOverflow", True),
             ("lo-1 <= f <= hi", "Init", "Bounds", True),
             ("|f-exact| <= |dy|/10^6 + 2", "Init", "Accurate", True),
             ("f equals the dot's Y at both ends of the piece", "Init", "AtDots", True)]
-    obl = fnlib.Obligations(c, "fn", "PieceFuncApa", c.pick(quick, full) + [
-        ("the split comparison used by PieceFunc!ValidDots is c <= maxVal", "InitOver", "LimitForm", True),
-        ("non-vacuity: |f-exact| <= |dy|/10^6 + 1 is refuted", "Init", "TightPlusOne", False),
-        ("non-vacuity: f >= lo is refuted", "Init", "NeverBelowLo", False),
-        ("non-vacuity: with coordinates up to maxVal+2 the computation overflows", "InitOver", "NoOverflow", False),
-    ], par=c.pick(2, 3))
+    neg = [("non-vacuity: |f-exact| <= |dy|/10^6 + 1 is refuted", "Init", "TightPlusOne", False),
+           ("non-vacuity: f >= lo is refuted", "Init", "NeverBelowLo", False),
+           ("non-vacuity: with coordinates up to maxVal+2 the computation overflows", "InitOver", "NoOverflow", False)]
+    obl = fnlib.Obligations(c, "fn", "PieceFuncApa", c.pick(quick + neg[:1], full + [
+        ("the split comparison used by PieceFunc!ValidDots is c <= maxVal", "InitOver", "LimitForm", True)] + neg), par=c.pick(2, 3))
     # ---- range extremes: record the real code, let Apalache compare with PieceFunc.tla
     ein, eout = c.path("piece_ext_in.ndjson"), c.path("piece_ext_out.ndjson")
     vlib.ndjson_write(ein, extreme_cases(c))
@@ -101,6 +100,9 @@ def run(c):
         f.write(fnlib.piece_ext_module("PieceExt", ext))
     ext_obl = fnlib.Obligations(c, "fn", "PieceExt", [("verdicts of the real NewFunc on %d dot lists at the range extremes equal PieceFunc!ValidDots" % len(ext),
                                                        "Init", "AllValid", True)], par=1)
+    # started together with the verdicts; its outcome is only looked at when the verdicts agree
+    # (PieceFunc!Get on a list that ValidDots refuses may divide by zero)
+    val_obl = fnlib.Obligations(c, "fn", "PieceExt", [("values of the real function on the accepted lists equal PieceFunc!Get", "Init", "AllValues", True)], par=1)
     # ---- TLC: clauses on every small list, values for seeded lists
     inp = c.path("piece_lists.ndjson")
     vlib.ndjson_write(inp, small_lists(c))
@@ -152,9 +154,11 @@ def run(c):
                             "refused" if cs["panicked"] else "accepted", json.dumps(cs["dots"])), replay=cs)
         if not ext_failed:
             raise vlib.Infra("PieceExt AllValid failed but no single case does")
-        val_obl = None
+        try:
+            val_obl.wait()
+        except vlib.Infra:
+            pass
     else:
-        val_obl = fnlib.Obligations(c, "fn", "PieceExt", [("values of the real function on the accepted lists equal PieceFunc!Get", "Init", "AllValues", True)], par=1)
         if not settled(val_obl):
             ks = failing("Value", [k for k, cs in enumerate(ext) if not cs["panicked"]])
             for k in ks:
@@ -183,7 +187,7 @@ def run(c):
         samples=rep["samples"][:2] + ext[:2],
     )
     cov.update(obl.summary())
-    cov["apalache_runs"] = cov["apalache_runs"] + ext_obl.results + (val_obl.results if val_obl else [])
+    cov["apalache_runs"] = cov["apalache_runs"] + ext_obl.results + val_obl.results
     return c.finish("exploration", cov, assumptions=[
         "the clauses are proved for ONE pair of neighbouring dots over the whole range (Apalache); piece selection, out-of-range behaviour and list "
         "validation are model-checked by TLC on small lists only",
